@@ -13,8 +13,10 @@ import z3
 RLIMIT_PROOF = 40_000_000
 RLIMIT_REFUTE = 40_000_000
 SOLVER_TIMEOUT_MS = 30_000
-FEAS_RLIMIT = 300_000
-FEAS_TIMEOUT_MS = 400            # feasibility probes only; unknown counts as feasible
+FEAS_RLIMIT = 300_000            # decides the probes (about 50 ms on an idle core); unknown counts as feasible
+FEAS_TIMEOUT_MS = 30_000         # wall-clock safety net only: a 400 ms limit here flipped probes to `unknown` on a
+                                 # loaded machine, so infeasible paths were explored in some runs and not in others
+VACUITY_RLIMIT = 5_000_000       # second opinion of the vacuity guards (is the path condition itself satisfiable?)
 MAX_PATHS = 4000
 
 
@@ -163,9 +165,27 @@ class Ctx:
         """True / False if the condition was decided syntactically on this path, else None"""
         return self.pc_ids.get(z3.simplify(cond).get_id())
 
+    def probe(self, cond=None):
+        """three-valued feasibility probe of the (nonlinear-abstracted) path condition [and cond]"""
+        if cond is None:
+            return self._feas.check()
+        return self._feas.check(abstract_nonlinear(cond))
+
     def feasible(self, cond):
-        r = self._feas.check(abstract_nonlinear(cond))
-        return r != z3.unsat
+        return self.probe(cond) != z3.unsat
+
+    def pc_satisfiable(self, upto=None):
+        """Is the path condition (its first `upto` conjuncts) satisfiable?  Used by the vacuity guards to tell
+        'the contract contradicts a feasible path' (sat) from 'this path was infeasible all along and an earlier
+        probe merely ran out of budget' (unsat).  Exact formula (nothing abstracted), quantified conjuncts
+        dropped (an over-approximation, so `unsat` is definite); rlimit-bounded."""
+        s = z3.Solver()
+        s.set('rlimit', VACUITY_RLIMIT)
+        s.set('timeout', SOLVER_TIMEOUT_MS)
+        for h in (self.pc if upto is None else self.pc[:upto]):
+            if not z3.is_quantifier(h):
+                s.add(h)
+        return s.check()
 
     def branch(self, cond, tag=''):
         """Decide a symbolic truth test.  Returns a concrete bool and extends the path condition."""
@@ -250,8 +270,17 @@ def ctx():
 _TIMEOUT_OVERRIDE = [None]
 
 
-def _mk_solver(rlimit):
+# A proof query that is normally discharged in milliseconds occasionally diverges (unlucky instantiation order:
+# the verdict of the *same* formula depends on the term ids z3 happened to hand out before).  A diverged attempt is
+# repeated under other random seeds before the obligation moves on to the expensive stages; `unsat` from any
+# attempt is a proof, so this only removes spurious `unknown`s.
+RETRY_SEEDS = (None, 1, 2, 3)
+
+
+def _mk_solver(rlimit, seed=None):
     s = z3.Solver()
+    if seed is not None:
+        s.set('random_seed', seed)
     s.set('rlimit', rlimit)
     s.set('timeout', _TIMEOUT_OVERRIDE[0] or SOLVER_TIMEOUT_MS)       # safety net only; the rlimit is what decides
     return s
@@ -335,12 +364,78 @@ def uf_pass(ob, lemmas, rounds=4, budget=5_000_000, limit=1200):
     return r, s
 
 
+def check_retry(forms, rlimit):
+    """check-sat of a list of formulas; an `unknown` is retried under the other seeds of RETRY_SEEDS"""
+    r = z3.unknown
+    for seed in RETRY_SEEDS:
+        s = _mk_solver(rlimit, seed)
+        for f in forms:
+            s.add(f)
+        r = s.check()
+        if r != z3.unknown:
+            break
+    return r
+
+
+EXT_Z3 = None
+EXT_RLIMIT = 3_000_000
+EXT_SEEDS = (0, 1, 2)
+EXT_WALL_S = 120                 # safety net; the queries this pass exists for take well under a second
+
+
+def _ext_z3():
+    global EXT_Z3
+    if EXT_Z3 is None:
+        import shutil
+        EXT_Z3 = shutil.which('z3-new') or shutil.which('z3') or ''
+    return EXT_Z3
+
+
+def external_pass(ob, lemmas, budget=EXT_RLIMIT, seeds=EXT_SEEDS):
+    """Proof pass in a *fresh solver process* (the z3 command line tool on the SMT-LIB dump of lemmas, hypotheses
+    and negated goal).  Whether an in-process query diverges depends on everything the process asked z3 before
+    (term ids, learned state): an obligation that is discharged in milliseconds in one run exhausts every budget
+    in another.  A fresh process has no history, so its verdict depends on the formula alone; budgets are rlimits,
+    -T is a wall-clock safety net only.  Only `unsat` is used."""
+    exe = _ext_z3()
+    if not exe:
+        return z3.unknown, 'no z3 executable'
+    import subprocess
+    s = z3.Solver()
+    for l in lemmas:
+        s.add(l)
+    for h in ob.hyps:
+        s.add(h)
+    s.add(z3.Not(ob.goal))
+    try:
+        txt = s.to_smt2()
+    except Exception as e:        # pylint: disable=broad-except
+        return z3.unknown, 'no smt2: %s' % e
+    why = ''
+    for seed in seeds:
+        t0 = time.time()
+        try:
+            p = subprocess.run([exe, '-smt2', '-in', '-T:%d' % EXT_WALL_S, 'rlimit=%d' % budget,
+                                'smt.random_seed=%d' % seed, 'sat.random_seed=%d' % seed],
+                               input=txt, capture_output=True, text=True, timeout=EXT_WALL_S + 30)
+        except Exception as e:    # pylint: disable=broad-except
+            return z3.unknown, type(e).__name__
+        out = p.stdout.strip().splitlines()
+        v = out[0].strip() if out else ''
+        if v == 'unsat':
+            return z3.unsat, 'seed %d' % seed
+        why = v[:40]
+        if v == 'timeout' or time.time() - t0 >= EXT_WALL_S:
+            break           # a theory on which the rlimit does not bite (strings): other seeds will not help
+    return z3.unknown, why
+
+
 P_SMALL, R_SMALL, P_BIG, R_BIG = 3_000_000, 4_000_000, 8_000_000, 6_000_000
 DEFAULT_BUDGETS = (P_SMALL, R_SMALL, 5_000_000, P_BIG, R_BIG)
 
 
-def _pass(ob, lemmas, ginst, kind, budget, interp=None):
-    s = _mk_solver(budget)
+def _pass(ob, lemmas, ginst, kind, budget, interp=None, seed=None):
+    s = _mk_solver(budget, seed)
     if kind == 'proof' or interp is None:
         for l in (lemmas if kind == 'proof' else ginst):
             s.add(l)
@@ -363,7 +458,7 @@ def _pass(ob, lemmas, ginst, kind, budget, interp=None):
     return r, s
 
 
-def discharge(ob, lemmas, ground=None, want_model=True, interp=None, hints=None, budgets=None):
+def discharge(ob, lemmas, ground=None, want_model=True, interp=None, hints=None, budgets=None, ext=True):
     """Two kinds of pass (DESIGN 3.6): *proof* with the quantified lemmas; *refutation* quantifier-free with
     ground axiom instances (gives models; with lemmas present z3 answers unknown for every false goal).
     Budgets are rlimits (deterministic).  Order: small proof, small refutation, big proof, big refutation.
@@ -385,10 +480,24 @@ def discharge(ob, lemmas, ground=None, want_model=True, interp=None, hints=None,
         if hs:
             ob.hyps = list(ob.hyps) + list(hs)
 
+    tlast = [time.time()]
+
+    def lap():
+        t = time.time()
+        d, tlast[0] = t - tlast[0], t
+        return '(%.1fs)' % d
+
     def note(kind, budget, r, s):
-        notes.append('%s@%dM:%s' % (kind, budget // 1_000_000, s.reason_unknown() if r == z3.unknown else r))
+        notes.append('%s@%dM:%s%s' % (kind, budget // 1_000_000, s.reason_unknown() if r == z3.unknown else r, lap()))
 
     r, s = _pass(ob, lemmas, ginst, 'proof', P_SMALL)
+    if r == z3.unknown:
+        for seed in RETRY_SEEDS[1:]:
+            rr, ss = _pass(ob, lemmas, ginst, 'proof', P_SMALL, seed=seed)
+            if rr != z3.unknown:
+                notes.append('proof@%dM:%s;retry(seed %d)' % (P_SMALL // 1_000_000, s.reason_unknown(), seed))
+                r, s = rr, ss
+                break
     if r == z3.unsat:
         ob.status = 'proved'
     elif r == z3.sat and not lemmas:
@@ -403,6 +512,14 @@ def discharge(ob, lemmas, ground=None, want_model=True, interp=None, hints=None,
                 model = s2.model()
             else:
                 note('refute', R_SMALL, r2, s2)
+        if ob.status is None and ext:
+            rx, wx = external_pass(ob, lemmas)
+            if rx == z3.unsat:
+                ob.status = 'proved'
+                ob.backend = 'z3(fresh process)'
+                notes.append('ext:' + wx + lap())
+            else:
+                notes.append('ext@%dM:%s%s' % (EXT_RLIMIT // 1_000_000, wx, lap()))
         if ob.status is None and lemmas and UF_B:
             ru, su = uf_pass(ob, lemmas, budget=UF_B)
             if ru == z3.unsat:
@@ -444,13 +561,7 @@ def prove_lemma_by_induction(name, VL, nil, cons, hd, tl, stmt, lemmas=(), extra
     r = z3.Const('ind!r', VL)
     res = []
     for tag, hyps, goal in (('base', [], stmt(nil)), ('step', [stmt(r)], stmt(cons(x, r)))):
-        s = _mk_solver(RLIMIT_PROOF)
-        for l in lemmas:
-            s.add(l)
-        for h in hyps:
-            s.add(h)
-        s.add(z3.Not(goal))
-        res.append((tag, s.check()))
+        res.append((tag, check_retry(list(lemmas) + list(hyps) + [z3.Not(goal)], RLIMIT_PROOF)))
     ok = all(r == z3.unsat for _, r in res)
     return ok, res
 
@@ -544,13 +655,7 @@ def prove_tree_induction(T, P, Q, lemmas=(), rlimit=RLIMIT_PROOF):
     out = []
 
     def run(tag, hyps, goal):
-        s = _mk_solver(rlimit)
-        for l in lemmas:
-            s.add(l)
-        for h in hyps:
-            s.add(h)
-        s.add(z3.Not(goal))
-        out.append((tag, str(s.check())))
+        out.append((tag, str(check_retry(list(lemmas) + list(hyps) + [z3.Not(goal)], rlimit))))
 
     V, VL = T.V, T.VL
     for i in range(V.num_constructors()):
